@@ -380,21 +380,37 @@ example :
 
 end binop
 
-/-! ## 7. the end-to-end SPECIFICATION of binary operators (Spec/Metrics.lean `evalBin`): matching on equal label sets -/
+/-! ## 7. the end-to-end SPECIFICATION of binary operators (Spec/Metrics.lean `evalVV`, `evalExpr`): one-to-one matching
+on the matching labels (all / on(…) / ignoring(…)), evaluated per timestamp -/
 
 section specbin
 open SigModel.Spec.Metrics
 
-/-- the partner of a label set is an element of the right vector with exactly this label set … -/
-theorem spec_partner_sound (r : List Elem) (ls : List (String × String)) (y : Elem) (h : findElem r ls = some y) :
-    y ∈ r ∧ y.1 = ls := by
-  simp only [findElem] at h
+/-- S0 the matching key: default = the whole label set; `ignoring ()` = default; a pair is in the `on` key iff it is a
+pair of the element whose label is listed, in the `ignoring` key iff its label is not listed (the two keys split the label set). -/
+theorem vmatch_default_key (ls : List (String × String)) : VMatch.default.key ls = ls := rfl
+
+theorem vmatch_ignoring_nil (ls : List (String × String)) : (VMatch.ignoring []).key ls = ls := by
+  simp [VMatch.key]
+
+theorem vmatch_on_mem (ks : List String) (ls : List (String × String)) (kv : String × String) :
+    kv ∈ (VMatch.on ks).key ls ↔ kv ∈ ls ∧ kv.1 ∈ ks := by
+  simp [VMatch.key, List.mem_filter]
+
+theorem vmatch_ignoring_mem (ks : List String) (ls : List (String × String)) (kv : String × String) :
+    kv ∈ (VMatch.ignoring ks).key ls ↔ kv ∈ ls ∧ kv.1 ∉ ks := by
+  simp [VMatch.key, List.mem_filter]
+
+/-- the partner of an element is an element of the other vector with the same matching key … -/
+theorem spec_partner_sound (m : VMatch) (r : List XElem) (x y : XElem) (h : findPartner m r x = some y) :
+    y ∈ r ∧ m.key y.1 = m.key x.1 := by
+  simp only [findPartner] at h
   exact ⟨List.mem_of_find?_eq_some h, by simpa using List.find?_some h⟩
 
-/-- … and it is unique when the right label sets are pairwise different (one-to-one matching: a partial bijection
-between the two vectors' label sets). -/
-theorem spec_partner_unique (r : List Elem) (hnd : (r.map (·.1)).Nodup) (y y' : Elem)
-    (hy : y ∈ r) (hy' : y' ∈ r) (h : y.1 = y'.1) : y = y' := by
+/-- … and it is unique when the keys of that vector are pairwise different (one-to-one matching: a partial bijection
+between the keys of the two vectors); `evalExpr` is undefined otherwise. -/
+theorem spec_partner_unique (m : VMatch) (r : List XElem) (hnd : (r.map (fun e => m.key e.1)).Nodup) (y y' : XElem)
+    (hy : y ∈ r) (hy' : y' ∈ r) (h : m.key y.1 = m.key y'.1) : y = y' := by
   induction r with
   | nil => cases hy
   | cons a t ih =>
@@ -405,42 +421,133 @@ theorem spec_partner_unique (r : List Elem) (hnd : (r.map (·.1)).Nodup) (y y' :
     · exact absurd h (hnd.1 y hy1)
     · exact ih hnd.2 hy1 hy2
 
-
-/-- S1 arithmetic, comparison and `and`: the result label sets are exactly the left label sets that have a partner (in left order). -/
-theorem spec_labels (op : BinOp) (b : Bool) (l r : List Elem) (hop : op ≠ .or ∧ op ≠ .unless) :
-    (evalBin op b l r).map (·.1) = (l.filter (fun x => (findElem r x.1).isSome)).map (·.1) := by
+/-- S1 arithmetic, comparison and `and`, under every matching clause: the result label sets are exactly the left label
+sets that have a partner (in left order). -/
+theorem spec_labels (m : VMatch) (op : BinOp) (b : Bool) (l r : List XElem) (hop : op ≠ .or ∧ op ≠ .unless) :
+    (evalVV m op b l r).map (·.1) = (l.filter (fun x => (findPartner m r x).isSome)).map (·.1) := by
   have h1 : (op == BinOp.or) = false := by simp [hop.1]
   have h2 : (op == BinOp.unless) = false := by simp [hop.2]
-  simp only [evalBin, h1, Bool.false_eq_true, if_false, List.append_nil]
+  simp only [evalVV, h1, Bool.false_eq_true, if_false, List.append_nil]
   induction l with
   | nil => rfl
   | cons x t ih =>
-    cases h : findElem r x.1 <;> simp [leftEntry, h, h1, h2, ih]
+    cases h : findPartner m r x <;> simp [leftEntry, h, h1, h2, ih]
 
-/-- S2 `unless` keeps every left element without partner, with all its samples … -/
-theorem spec_unless_keeps (b : Bool) (l r : List Elem) (x : Elem) (hx : x ∈ l) (hn : findElem r x.1 = none) :
-    (x.1, allVals x) ∈ evalBin .unless b l r := by
-  simp only [evalBin, List.mem_append, List.mem_filterMap]
+/-- S2 PER TIMESTAMP: a result sample of arithmetic / comparison / `and` at time t needs a sample of BOTH matched
+elements at t — a missing right sample is never read as a value (the engine used to read it as 0). -/
+theorem spec_sample_needs_both (op : BinOp) (b : Bool) (x y : XElem) (hop : op ≠ .or ∧ op ≠ .unless)
+    (t : Nat) (p : BinPt) (h : (t, p) ∈ matchedPts op b x y) :
+    (∃ px, (t, px) ∈ x.2) ∧ (ptAt y t).isSome := by
+  have key : ∀ (f : Nat × BinPt → Option (Nat × BinPt)),
+      (∀ q r, f q = some r → r.1 = q.1 ∧ (ptAt y q.1).isSome) → (t, p) ∈ x.2.filterMap f →
+      (∃ px, (t, px) ∈ x.2) ∧ (ptAt y t).isSome := by
+    intro f hf hm
+    obtain ⟨q, hq, hfq⟩ := List.mem_filterMap.1 hm
+    obtain ⟨h1, h2⟩ := hf q _ hfq
+    simp only at h1
+    subst h1
+    exact ⟨⟨q.2, hq⟩, h2⟩
+  cases op <;> simp only [matchedPts] at h <;> first
+    | exact absurd rfl hop.1
+    | exact absurd rfl hop.2
+    | (refine key _ ?_ h
+       rintro ⟨t', px⟩ r hr
+       simp only at hr
+       cases hy : ptAt y t' with
+       | none => simp [hy] at hr
+       | some py =>
+         simp only [hy] at hr
+         first
+           | (obtain ⟨p', _, rfl⟩ := Option.map_eq_some_iff.1 hr; exact ⟨rfl, rfl⟩)
+           | (cases py <;> simp at hr <;> subst hr <;> exact ⟨rfl, rfl⟩))
+
+/-- S3 `and` and `unless` PARTITION the samples of a matched left element (right element without unjudged samples):
+a left sample is kept by `and` iff the right element has a sample at its timestamp, by `unless` iff it has none. -/
+theorem spec_and_sample (b : Bool) (x y : XElem) (hy : ∀ q ∈ y.2, q.2 ≠ BinPt.open) (t : Nat) (p : BinPt) :
+    (t, p) ∈ matchedPts .and b x y ↔ (t, p) ∈ x.2 ∧ (ptAt y t).isSome := by
+  have hopen : ∀ t', ptAt y t' ≠ some BinPt.open := by
+    intro t' h
+    simp only [ptAt, Option.map_eq_some_iff] at h
+    obtain ⟨q, hq, hq2⟩ := h
+    exact hy q (List.mem_of_find?_eq_some hq) hq2
+  simp only [matchedPts, List.mem_filterMap]
+  constructor
+  · rintro ⟨⟨t', px⟩, hq, hf⟩
+    simp only at hf
+    cases hpy : ptAt y t' with
+    | none => simp [hpy] at hf
+    | some py =>
+      cases py <;> simp [hpy] at hf <;> first
+        | exact absurd hpy (hopen t')
+        | (obtain ⟨rfl, rfl⟩ := hf; exact ⟨hq, by simp [hpy]⟩)
+  · rintro ⟨hq, hs⟩
+    refine ⟨(t, p), hq, ?_⟩
+    simp only
+    cases hpy : ptAt y t with
+    | none => simp [hpy] at hs
+    | some py => cases py <;> first | exact absurd hpy (hopen t) | rfl
+
+theorem spec_unless_sample (b : Bool) (x y : XElem) (hy : ∀ q ∈ y.2, q.2 ≠ BinPt.open) (t : Nat) (p : BinPt) :
+    (t, p) ∈ matchedPts .unless b x y ↔ (t, p) ∈ x.2 ∧ ptAt y t = none := by
+  have hopen : ∀ t', ptAt y t' ≠ some BinPt.open := by
+    intro t' h
+    simp only [ptAt, Option.map_eq_some_iff] at h
+    obtain ⟨q, hq, hq2⟩ := h
+    exact hy q (List.mem_of_find?_eq_some hq) hq2
+  simp only [matchedPts, List.mem_filterMap]
+  constructor
+  · rintro ⟨⟨t', px⟩, hq, hf⟩
+    simp only at hf
+    cases hpy : ptAt y t' with
+    | none =>
+      simp [hpy] at hf
+      obtain ⟨rfl, rfl⟩ := hf
+      exact ⟨hq, hpy⟩
+    | some py =>
+      cases py <;> simp [hpy] at hf
+      exact absurd hpy (hopen t')
+  · rintro ⟨hq, hs⟩
+    exact ⟨(t, p), hq, by simp [hs]⟩
+
+theorem spec_and_unless_partition (b : Bool) (x y : XElem) (hy : ∀ q ∈ y.2, q.2 ≠ BinPt.open) (t : Nat) (p : BinPt)
+    (hx : (t, p) ∈ x.2) :
+    ((t, p) ∈ matchedPts .and b x y ∨ (t, p) ∈ matchedPts .unless b x y) ∧
+    ¬ ((t, p) ∈ matchedPts .and b x y ∧ (t, p) ∈ matchedPts .unless b x y) := by
+  rw [spec_and_sample b x y hy, spec_unless_sample b x y hy]
+  cases h : ptAt y t <;> simp [hx]
+
+/-- S4 `unless` keeps a left element without partner with all its samples. -/
+theorem spec_unless_keeps (m : VMatch) (b : Bool) (l r : List XElem) (x : XElem) (hx : x ∈ l) (hn : findPartner m r x = none) :
+    x ∈ evalVV m .unless b l r := by
+  simp only [evalVV, List.mem_append, List.mem_filterMap]
   exact Or.inl ⟨x, hx, by simp [leftEntry, hn]⟩
 
-/-- … and judges nothing else: a judged sample of `a unless b` belongs to a left element without partner.  Together with S1
-(`and`): the left label sets with a partner and those without partition the left vector (filter p / filter ¬p). -/
-theorem spec_unless_judged (b : Bool) (l r : List Elem) (e : List (String × String) × List (Nat × BinPt))
-    (he : e ∈ evalBin .unless b l r) (t : Nat) (v : Rat) (hv : (t, BinPt.val v) ∈ e.2) :
-    ∃ x ∈ l, x.1 = e.1 ∧ findElem r x.1 = none := by
-  simp only [evalBin, List.mem_append, List.mem_filterMap] at he
-  rcases he with ⟨x, hx, hle⟩ | h
-  · cases hf : findElem r x.1 with
-    | none =>
-      simp [leftEntry, hf] at hle
-      exact ⟨x, hx, by rw [← hle], hf⟩
-    | some y =>
-      simp [leftEntry, hf, matchedPts] at hle
-      subst hle
-      simp only [List.mem_filterMap] at hv
-      obtain ⟨p, _, hp⟩ := hv
-      split at hp <;> simp at hp
-  · simp at h
+/-- S5 a division by zero is judged, not dropped: +Inf, -Inf, NaN (integers below 2^20). -/
+theorem spec_div_zero (b : Bool) (x : Int) (hx : x.natAbs < 2 ^ 20) :
+    applyOp .div b (x : Rat) 0 = some (if x = 0 then BinPt.nan else BinPt.inf (x < 0)) := by
+  have h1 : ratIsInt (x : Rat) = true := by simp [ratIsInt, pow2, hx]
+  have h2 : ratIsInt (0 : Rat) = true := by simp [ratIsInt, pow2]
+  simp only [applyOp, applyOpK, h1, h2, Bool.and_self, Bool.not_true, Bool.false_eq_true, if_false]
+  by_cases h0 : x = 0
+  · subst h0; simp
+  · have : ((x : Rat) == 0) = false := by simp [h0]
+    simp only [this, h0, Bool.false_eq_true, if_false]
+    congr 2
+    have : ((x : Rat) < 0) ↔ x < 0 := by exact_mod_cast Iff.rfl
+    simp [this]
+
+/-- non-vacuity: a{} has a sample at 10 only, b{} at 20 only: `a + b` is empty (it used to be 5 at 10), `a unless b`
+is a, `a or b` holds both samples. -/
+example : evalVV .default .add false [([], [(10, .val 5)])] [([], [(20, .val 1)])] = [([], [])] ∧
+          evalVV .default .unless false [([], [(10, .val 5)])] [([], [(20, .val 1)])] = [([], [(10, .val 5)])] ∧
+          evalVV .default .or false [([], [(10, .val 5)])] [([], [(20, .val 1)])] = [([], [(10, .val 5)]), ([], [(20, .val 1)])] := by
+  decide +kernel
+
+/-- on(host): c{host=h-1,route=/api} and d{host=h-1,dc=eu} match although their label sets differ -/
+example : (evalVV (.on ["host"]) .div false [([("host", "h-1"), ("route", "/api")], [(10, .val 10)])]
+                                         [([("dc", "eu"), ("host", "h-1")], [(10, .val 2)])]).map (·.1)
+          = [[("host", "h-1"), ("route", "/api")]] := by
+  decide +kernel
 
 end specbin
 
